@@ -22,6 +22,12 @@ import (
 
 // Fingerprint of a function body or statement list.
 func Fingerprint(info *types.Info, root ast.Node) []string {
+	return FingerprintSkip(info, root, nil)
+}
+
+// FingerprintSkip is Fingerprint without the bodies of the case clauses / if
+// statements whose condition satisfies skipArm (their conditions still count).
+func FingerprintSkip(info *types.Info, root ast.Node, skipArm func(cond ast.Expr) bool) []string {
 	var out []string
 	add := func(format string, a ...interface{}) { out = append(out, fmt.Sprintf(format, a...)) }
 	cval := func(e ast.Expr) (string, bool) {
@@ -31,10 +37,22 @@ func Fingerprint(info *types.Info, root ast.Node) []string {
 		}
 		return tv.Value.ExactString(), true
 	}
-	ast.Inspect(root, func(n ast.Node) bool {
+	var visit func(n ast.Node) bool
+	visit = func(n ast.Node) bool {
 		switch x := n.(type) {
 		case *ast.FuncLit:
 			return false
+		case *ast.IfStmt:
+			if skipArm != nil && skipArm(x.Cond) {
+				if x.Init != nil {
+					ast.Inspect(x.Init, visit)
+				}
+				ast.Inspect(x.Cond, visit)
+				if x.Else != nil {
+					ast.Inspect(x.Else, visit)
+				}
+				return false
+			}
 		case *ast.BinaryExpr:
 			if _, whole := cval(x); whole {
 				return false // constant-folded sub-expression, counted by its parent
@@ -112,11 +130,56 @@ func Fingerprint(info *types.Info, root ast.Node) []string {
 					add("case %s", v)
 				}
 			}
+			if skipArm != nil {
+				for _, l := range x.List {
+					if skipArm(l) {
+						for _, l2 := range x.List {
+							ast.Inspect(l2, visit)
+						}
+						return false
+					}
+				}
+			}
 		}
 		return true
-	})
+	}
+	ast.Inspect(root, visit)
 	sort.Strings(out)
 	return out
+}
+
+// ziplistIntArm: the condition selects one of the integer encodings of a
+// ziplist entry header (0xc0, 0xd0, 0xe0, 0xf0, 0xfe, 0xf1..0xfd).
+func ziplistIntArm(info *types.Info) func(ast.Expr) bool {
+	isHdr := func(v int64) bool {
+		return v == 0xc0 || v == 0xd0 || v == 0xe0 || v == 0xf0 || v == 0xfe
+	}
+	return func(cond ast.Expr) bool {
+		cond = ast.Unparen(cond)
+		if v, ok := core.IntConst(info, cond); ok {
+			return isHdr(v) // tagged switch over the header byte
+		}
+		be, ok := cond.(*ast.BinaryExpr)
+		if !ok || be.Op != token.EQL {
+			return false
+		}
+		for _, pr := range [][2]ast.Expr{{be.X, be.Y}, {be.Y, be.X}} {
+			v, isC := core.IntConst(info, pr[1])
+			if !isC {
+				continue
+			}
+			if sh, isSh := ast.Unparen(pr[0]).(*ast.BinaryExpr); isSh {
+				if k, isK := core.IntConst(info, sh.Y); isK && sh.Op == token.SHR && k == 4 && v == 0xf {
+					return true
+				}
+				continue
+			}
+			if isHdr(v) {
+				return true
+			}
+		}
+		return false
+	}
 }
 
 // Diff returns the elements only in a and only in b (multiset difference).
@@ -169,6 +232,19 @@ func CheckSiblings(c *core.Ctx, rule string) {
 		}
 		fa := Fingerprint(a.Pkg.TypesInfo, a.Decl.Body)
 		fb := Fingerprint(b.Pkg.TypesInfo, b.Decl.Body)
+		if p.What == "ziplist entry decoding" {
+			// the integer arms are decided directly, copy by copy (ZiplistInts): when
+			// both copies pass, their spelling of those arms is free
+			direct := func(fn *core.Fn) bool {
+				sub := core.NewCtx(c.Program, c.Prop, c.Tier)
+				ZiplistInts(sub, rule, fn)
+				return len(sub.Obs) > 0 && !sub.Open()
+			}
+			if direct(a) && direct(b) {
+				fa = FingerprintSkip(a.Pkg.TypesInfo, a.Decl.Body, ziplistIntArm(a.Pkg.TypesInfo))
+				fb = FingerprintSkip(b.Pkg.TypesInfo, b.Decl.Body, ziplistIntArm(b.Pkg.TypesInfo))
+			}
+		}
 		// the pkg/rdb LZF copy wraps the loop in a recover()/length check; ignore what only that wrapper adds
 		oa, ob := Diff(fa, fb)
 		if p.What == "LZF decompression" {
